@@ -1,40 +1,47 @@
 ------------------------------------ MODULE Trace_CountTable ------------------------------------
 (* Observations of the real create_count_table(args, return_df=True) judged by the P-level        *)
 (* definitions of CountTable.tla (ShouldCount / MayCount, Weight, Contribs).                       *)
-(*   {"ev":"table","tid":n,"opts":{..option record..},"reads":[{..read record..}],                 *)
+(*   {"ev":"bam","tid":n,"reads":[{..read record..}]}            the BAM the following runs read      *)
+(*   {"ev":"table","tid":n,"opts":{..option record..},                                              *)
 (*    "raised":"" | "<ExceptionType>", "table":[{"sample":s,"key":[str,..],"w":int}]}                *)
 (* weights are integers: value * 24 (the driver refuses values that are not multiples of 1/24).   *)
 (* The read records are the generator's abstract description (the BAM bytes are derived from it).  *)
 EXTENDS TraceLib, CountTable
 
-VARIABLE l
+VARIABLES l, cur      \* cur = line of the "bam" event the current runs refer to
 
-Precondition(e) ==
-    IF ~Legal(e.opts) THEN "outside_supported_option_combinations"
-    ELSE IF \E k \in DOMAIN e.reads : ~WeightExact(e.reads[k], e.opts) THEN "weight_not_representable_over_24"
+ReadsAt(c) == Log[c].reads
+
+Precondition(e, rs) ==
+    IF e.ev = "bam" THEN "ok"
+    ELSE IF ~Legal(e.opts) THEN "outside_supported_option_combinations"
+    ELSE IF \E k \in DOMAIN rs : ~WeightExact(rs[k], e.opts) THEN "weight_not_representable_over_24"
     ELSE "ok"
 
-TableVerdict(e) ==
+TableVerdict(e, rs) ==
     LET o    == e.opts
-        lo   == AllContribs(e.reads, o, LAMBDA r : ShouldCount(r, o))
-        hi   == AllContribs(e.reads, o, LAMBDA r : MayCount(r, o))
+        lo   == AllContribs(rs, o, LAMBDA r : ShouldCount(r, o))
+        hi   == AllContribs(rs, o, LAMBDA r : MayCount(r, o))
         got  == [k \in DOMAIN e.table |-> [sample |-> e.table[k].sample, key |-> e.table[k].key, w |-> e.table[k].w]]
         cells == { Cell(got[k]) : k \in DOMAIN got } \cup { Cell(hi[k]) : k \in DOMAIN hi }
         bad(cell) == SumAt(got, cell) < SumAt(lo, cell) \/ SumAt(got, cell) > SumAt(hi, cell)
-        samples == { e.reads[k].sample : k \in { j \in DOMAIN e.reads : MayCount(e.reads[j], o) } }
+        samples == { rs[k].sample : k \in { j \in DOMAIN rs : MayCount(rs[j], o) } }
     IN IF e.raised # "" THEN "Inv_C11_Total"
        ELSE IF \E k \in DOMAIN got : got[k].sample \notin samples /\ got[k].w # 0 THEN "Inv_C11_Sample"
        ELSE IF \E cell \in cells : bad(cell) THEN
             (IF \E cell \in cells : SumAt(got, cell) > SumAt(hi, cell) THEN "Inv_C11_Table_overcount" ELSE "Inv_C11_Table_undercount")
        ELSE "ok"
 
-Verdict(e) == IF e.ev = "table" THEN TableVerdict(e) ELSE "unknown_event"
+Verdict(e, rs) == IF e.ev = "table" THEN TableVerdict(e, rs) ELSE IF e.ev = "bam" THEN "ok" ELSE "unknown_event"
 
-TInit == l = 1 /\ reads = <<>> /\ opts = 0 /\ work = <<>> /\ i = 0 /\ pc = "trace" /\ table = <<>>
+TInit == l = 1 /\ cur = 0 /\ reads = <<>> /\ opts = 0 /\ work = <<>> /\ i = 0 /\ pc = "trace" /\ table = <<>>
 TNext == /\ l <= Len(Log)
-         /\ LET p == Precondition(Log[l]) IN
-            IF p # "ok" THEN Note(l, Log[l].tid, p) ELSE Judge(l, Verdict(Log[l]))
+         /\ LET rs == IF Log[l].ev = "bam" THEN Log[l].reads ELSE IF cur > 0 THEN ReadsAt(cur) ELSE <<>>
+                p  == Precondition(Log[l], rs)
+            IN IF Log[l].ev # "bam" /\ cur = 0 THEN Reject(l, Log[l].tid, "table_event_without_bam")
+               ELSE IF p # "ok" THEN Note(l, Log[l].tid, p) ELSE Judge(l, Verdict(Log[l], rs))
          /\ l' = l + 1
+         /\ cur' = IF Log[l].ev = "bam" THEN l ELSE cur
          /\ UNCHANGED vars
 TAccepted == TLCGet("stats").diameter - 1 = Len(Log)
 =====================================================================================================
